@@ -36,6 +36,7 @@ type FuncContract struct {
 	PNames   []string
 	RNames   []string
 	AtCalls  []AtCall
+	Preserves []*Clause
 	ModAll   bool             // modifies *
 	Loops    map[int][]*Clause // loop ordinal -> invariants
 	LoopMods map[int][]string  // loop ordinal -> extra havoc hints (unused mostly)
@@ -183,6 +184,17 @@ func parseContractFile(path string, pkgPath string, pc *PkgContracts) error {
 						mc.Go = "modtarget(" + rewriteSpec(it) + ")"
 					}
 					cur.ModClauses = append(cur.ModClauses, mc)
+				}
+			}
+		case "preserves":
+			// with "modifies *": these whole field maps (Type.field) are nevertheless left unchanged
+			if cur == nil {
+				return fmt.Errorf("%s:%d: clause outside func block", path, i+1)
+			}
+			for _, it := range splitTop(rest, ',') {
+				it = strings.TrimSpace(it)
+				if it != "" {
+					cur.Preserves = append(cur.Preserves, &Clause{Kind: "preserves", Text: it, RawMod: "type:" + it, File: path, Line: i + 1})
 				}
 			}
 		case "loop":
